@@ -44,6 +44,7 @@ type FuncReport struct {
 	Results  []*OblResult
 	Ex       *Exec
 	Time     float64
+	Notes    []string
 }
 
 // lemmaObligations builds proof obligations for a lemma.
@@ -60,6 +61,8 @@ func (w *World) lemmaObligations(lm *Lemma) (obls []*Obligation, err error) {
 	if lm.Axiom {
 		return nil, nil
 	}
+	w.fresh = 0
+	bvCounter = 100000
 	ex := &Exec{w: w, arith: "exact", assumedCalls: map[string]bool{}}
 	names := map[string]*Val{}
 	for _, p := range lm.Params {
@@ -70,6 +73,7 @@ func (w *World) lemmaObligations(lm *Lemma) (obls []*Obligation, err error) {
 	}
 	env := &SpecEnv{names: names, pkg: lm.Pkg, w: w}
 	mkObl := func(name string, guard, goal *Term, src string) {
+		goal = ex.skolemGoal(goal)
 		o := &Obligation{Name: lm.Pkg + ".lemma." + lm.Name + "#" + name, Kind: "lemma", Func: lm.Pkg + ".lemma." + lm.Name, Guard: guard, Goal: goal, NDecl: len(ex.decls), Unfold: lm.Unfold, Props: lm.Props, Src: src, ex: ex, Inputs: ex.inputs}
 		if o.Unfold == 0 {
 			o.Unfold = 1
@@ -88,7 +92,20 @@ func (w *World) lemmaObligations(lm *Lemma) (obls []*Obligation, err error) {
 		uses = append(uses, w.lemmaInstance(u, env))
 	}
 	guard := tAnd(append(append([]*Term{}, req...), uses...)...)
+	{
+		o := &Obligation{Name: lm.Pkg + ".lemma." + lm.Name + "#cover.pre", Kind: "cover", Func: lm.Pkg + ".lemma." + lm.Name, Guard: guard, Goal: tFalse, NDecl: len(ex.decls), Unfold: 1, Props: lm.Props, Src: "lemma hypotheses are satisfiable", ex: ex, Cover: true}
+		obls = append(obls, o)
+	}
+	addHaves := func(g *Term, tag string) *Term {
+		for i, h := range lm.Haves {
+			ht := w.trSpec(h.E, env).T
+			mkObl(fmt.Sprintf("%shave.%s", tag, clauseName(h, i)), g, ht, "have: "+h.Src)
+			g = tAnd(g, ht)
+		}
+		return g
+	}
 	if lm.Induction == "" {
+		guard = addHaves(guard, "")
 		for i, e := range ens {
 			mkObl(fmt.Sprintf("proof.%s", clauseName(lm.Ensures[i], i)), guard, e, lm.Ensures[i].Src)
 		}
@@ -122,13 +139,14 @@ func (w *World) lemmaObligations(lm *Lemma) (obls []*Obligation, err error) {
 		ihEns = append(ihEns, w.trSpec(c.E, ihEnv).T)
 	}
 	ih := tImp(tAnd(ihReq...), tAnd(ihEns...))
+	stepGuard := addHaves(tAnd(guard, mk(">", SBool, k.T, base), ih), "step.")
 	for i, e := range ens {
-		mkObl(fmt.Sprintf("step.%s", clauseName(lm.Ensures[i], i)), tAnd(guard, mk(">", SBool, k.T, base), ih), e, "step: "+lm.Ensures[i].Src)
+		mkObl(fmt.Sprintf("step.%s", clauseName(lm.Ensures[i], i)), stepGuard, e, "step: "+lm.Ensures[i].Src)
 	}
 	return obls, nil
 }
 
-func verifyKeys(w *World, keys []string, lemmas []string, smtDir string, timeoutMs, par int, verbose bool) []*FuncReport {
+func verifyKeys(w *World, keys []string, lemmas []string, smtDir string, timeoutMs, par int, verbose bool, implProp string) []*FuncReport {
 	var reports []*FuncReport
 	var all []*Obligation
 	type span struct{ lo, hi int }
@@ -165,6 +183,16 @@ func verifyKeys(w *World, keys []string, lemmas []string, smtDir string, timeout
 		}
 		spans[len(reports)-1] = span{len(all), len(all) + len(obls)}
 		all = append(all, obls...)
+	}
+	if implProp != "-" {
+		iobls, ifuncs := w.implObligations(implProp)
+		if len(iobls) > 0 {
+			rep := &FuncReport{Key: "behavioural-subtyping"}
+			rep.Notes = ifuncs
+			reports = append(reports, rep)
+			spans[len(reports)-1] = span{len(all), len(all) + len(iobls)}
+			all = append(all, iobls...)
+		}
 	}
 	t0 := time.Now()
 	results := solveAll(w, all, smtDir, timeoutMs, par)
@@ -207,7 +235,11 @@ func cmdVerify(args []string) {
 			}
 		}
 	}
-	reps := verifyKeys(w, keys, lemmas, *smtDir, *timeout, 16, *verbose)
+	implProp := "-"
+	if *funcs == "" {
+		implProp = ""
+	}
+	reps := verifyKeys(w, keys, lemmas, *smtDir, *timeout, 16, *verbose, implProp)
 	bad := 0
 	for _, r := range reps {
 		if r.Err != nil {
@@ -232,6 +264,9 @@ func cmdVerify(args []string) {
 		fmt.Printf("%-50s %d/%d discharged  %.1fs%s\n", r.Key, ok, n, tt, tag)
 		sort.SliceStable(r.Results, func(i, j int) bool { return false })
 		for _, x := range r.Results {
+			if x.O.Cover && !x.OK && !strings.HasSuffix(x.O.Name, "cover.pre") && expectedDead(w.CS.Funcs[r.Key], x.O.Name) {
+				continue
+			}
 			if !x.OK || *showOK {
 				fmt.Printf("    %-8s %-7s %5.2fs %s  -- %s %s\n", x.R.Status, x.R.Solver, x.R.Time, x.O.Name, x.O.Src, x.Msg)
 				if !x.OK {
